@@ -50,6 +50,11 @@ type histStart struct {
 	companion  bool // made right after ANOTHER decoder's failed Decode; that decoder is kept (histCompanions)
 }
 
+// option slices owned by the caller (this harness) that share one backing array with spare
+// capacity: a library that appends to the slice it is given writes into it (round 5, C15-B-r5)
+var histCommonOpts = make([]report.ReportOptionsFunc, 0, 4)
+var histJaOpts = append(histCommonOpts, report.WithOptionsLanguage(language.Japanese))
+
 // histCompanions: live object -> the decoder whose Decode failed just before the live object was made
 var histCompanions sync.Map
 
@@ -173,6 +178,33 @@ func histStarts(thorough bool) []histStart {
 						histCompanions.Store(y, x)
 						return y
 					}, decoded: true, tokens: lang.Classify(ver, level, good).Tokens, companion: true})
+			}
+		}
+		// objects obtained through a nil receiver, plainly and right after a nil-receiver decode that
+		// was rejected (round 5, C04-A-r5: throw-away objects of rejected nil-receiver decodes kept on
+		// a spare list together with their embedded objects)
+		for level := 0; level < 3; level++ {
+			level := level
+			good := seeds(ver)[level]
+			if !lang.Classify(ver, level, good).Accept {
+				good = seeds(ver)[0]
+			}
+			for _, rej := range []string{"", "AV:N/AV:Q", "CVSS:3.1/AV:N/AV:Q"} {
+				rej := rej
+				id := fmt.Sprintf("v%d %s decoded %s through a nil receiver", ver, spec.LevelNames[level], good)
+				if rej != "" {
+					id += fmt.Sprintf(" right after a nil-receiver Decode(%q) at the same level was rejected", rej)
+				}
+				add(id, ver, level, func() any {
+					if rej != "" {
+						lib.Decode(lib.Nil(ver, level), rej)
+					}
+					o, _, _ := lib.Decode(lib.Nil(ver, level), good)
+					if o == nil {
+						return lib.Nil(ver, level)
+					}
+					return o
+				}, true, false, lang.Classify(ver, level, good).Tokens)
 			}
 		}
 		vecs := seeds(ver)
@@ -307,6 +339,17 @@ func histOps(thorough bool) []histOp {
 		}
 		return ""
 	})
+	q("report.New(options: the caller-owned slice [ja], which has spare capacity)", func(s *histStart) bool { return s.ver == 3 && !s.isNil }, func(o any) string {
+		switch x := o.(type) {
+		case *v3.Base:
+			return dump.Of(report.NewBase(x, histJaOpts...))
+		case *v3.Temporal:
+			return dump.Of(report.NewTemporal(x, histJaOpts...))
+		case *v3.Environmental:
+			return dump.Of(report.NewEnvironmental(x, histJaOpts...))
+		}
+		return ""
+	})
 	q("ExportWithString", func(s *histStart) bool { return s.ver == 3 && !s.isNil }, func(o any) string {
 		rep := reportOf(o, language.Japanese).(interface {
 			ExportWithString(string) (io.Reader, error)
@@ -387,6 +430,13 @@ func histOps(thorough bool) []histOp {
 			}()
 		}})
 	}
+	ops = append(ops, histOp{name: "a report is built elsewhere from the empty prefix of the caller-owned option slice", kind: 'd', ok: always, run: func(any) string {
+		em, err := v3.NewEnvironmental().Decode("CVSS:3.0/AV:L/AC:H/PR:L/UI:N/S:C/C:H/I:H/A:H/E:P/RL:T/RC:U")
+		if err != nil {
+			return "rejected"
+		}
+		return dump.Of(report.NewEnvironmental(em, histCommonOpts...)) + dump.Of(report.NewTemporal(em.TemporalMetrics(), histCommonOpts...))
+	}})
 	ops = append(ops, histOp{name: "the decoder that failed before this object was made retries a Decode", kind: 'd',
 		ok: func(s *histStart) bool { return s.companion },
 		run: func(o any) string {
